@@ -60,4 +60,19 @@ theorem guarded_slot_releases_seen :
      "schemaPropsValidator.validateOneOf"].all
       (fun f => Generated.selfWrites.any (fun w => w.1 == f && w.2.2)) = true := by decide
 
+/-- T1: *the answer of a child validator is never written to*: every call of a mutating `*Result` method (Inc, AddErrors,
+    AddWarnings, the Merge family, the schemata recorders, cleared) has as its receiver a result the function created or
+    borrowed itself, one it was handed by its caller to fill, or the method's own receiver — never a value that came back
+    from a `Validate` call, which may be the process-wide shared empty result (a write to it changes the match counts of
+    every later validation) -/
+theorem child_answers_never_written :
+    Generated.resultMutations.all (fun m =>
+      ["fresh", "fresh | zero", "zero", "param", "receiver", "expr", "multi call responseHelp.expandResponseRef"].contains m.2.2.2) = true := by
+  decide
+
+/-- the table sees the validators' own bookkeeping (not vacuous) -/
+theorem result_mutations_seen :
+    Generated.resultMutations.any (fun m => m.1 == "itemsValidator.Validate" && m.2.1 == "Inc" && m.2.2.2 == "fresh | zero") = true
+    ∧ Generated.resultMutations.length ≥ 100 := by decide
+
 end VM.C08
